@@ -190,7 +190,15 @@ func runWorld(line string) string {
 // desired name, no Failed pod outside the desired set under OrderedReady), plus a share that does not.
 func genWorldCase(rng *rand.Rand) *syCase {
 	c := genSyCase(rng)
-	for c.claims { // the world engine has no claims mode (names and hashes of the case depend on the template)
+	hasCorrupt := func(c *syCase) bool {
+		for _, r := range c.store {
+			if r.data == "R" || r.data == "S" {
+				return true
+			}
+		}
+		return false
+	}
+	for c.claims || hasCorrupt(c) { // the world engine has no claims mode (names and hashes of the case depend on the template) and no unappliable revisions
 		c = genSyCase(rng)
 	}
 	c.fuid, c.fdel = 1, c.del // the world engine starts from cache = API
